@@ -80,6 +80,18 @@ static void c03_cut(World *w, Buf *b, int pos, int variant) {
     if (!variant && st.rc == 0) c2 = c03_counter_probe(&wr, b);
     tr("cut pos=%d variant=%d shutdown_rc=%u maininit=%u startup_rc=%u equal=%d ctr_live=%llu ctr_restart=%llu", pos, variant, sr.rc, mi, st.rc, !memcmp(d1, d2, 32),
        (unsigned long long)c1, (unsigned long long)c2);
+    /* an index that was deleted before the cut is gone for good: defined again (as an orderly index, whose data live in the
+       orderly RAM and its NV copy) it must come up unwritten. The state is rolled back afterwards. */
+    if (st.rc == 0) for (int k = 0; k < 24; k++) if (w->nv_gone >> k & 1) {
+        uint32_t idx = 0x01400000u + k; int live = 0; for (int q = 0; q < wr.nnv; q++) if (wr.nv[q].idx == idx) live = 1;
+        if (live) continue;
+        cmd_begin(b, ST_SESSIONS, CC_NV_DefineSpace); b_u32(b, RH_OWNER); auth_pw_s(b, wr.ownerAuth); b_u16(b, 0); b_u16(b, 14); b_u32(b, idx); b_u16(b, ALG_SHA256);
+        b_u32(b, (1u << 2) | (1u << 18) | (1u << 1) | (1u << 17) | (1u << 25) | (1u << 26)); b_u16(b, 0); b_u16(b, 8); Rsp dr = run(b);
+        uint32_t rrc = 0, attrs = 0;
+        if (dr.rc == 0) { cmd_begin(b, ST_SESSIONS, CC_NV_Read); b_u32(b, idx); b_u32(b, idx); auth_pw(b, "", 0); b_u16(b, 8); b_u16(b, 0); rrc = run(b).rc;
+            cmd_begin(b, ST_NO_SESSIONS, CC_NV_ReadPublic); b_u32(b, idx); Rsp pr = run(b); if (pr.rc == 0 && pr.len >= 22) attrs = g32(pr.p + 18); }
+        tr("reborn pos=%d handle=%u define_rc=%u read_rc=%u written=%d attrs=%u want=%u", pos, idx, dr.rc, rrc, (int)(attrs >> 29 & 1), attrs, (1u << 2) | (1u << 18) | (1u << 1) | (1u << 17) | (1u << 25) | (1u << 26));
+    }
     TPM_RESULT rr = snap_restore(&s, w);
     if (rr) die("C03: cannot resume from own snapshot: %u", rr);
     snap_free(&s);
@@ -111,7 +123,7 @@ static void scen_c03(int histories, int maxops, int cut_pct) {
                a restart shows whether the NV copy was updated, so a cut mostly follows them at once */
             int admin = w.last_rc == 0 && (w.last_cc == CC_Clear || w.last_cc == CC_ChangeEPS || w.last_cc == CC_ChangePPS || w.last_cc == CC_HierarchyControl ||
                         w.last_cc == CC_SetCommandCodeAuditStatus || w.last_cc == CC_PP_Commands || w.last_cc == CC_SetPrimaryPolicy || w.last_cc == CC_ClearControl ||
-                        w.last_cc == CC_HierarchyChangeAuth || w.last_cc == CC_DictionaryAttackParameters);
+                        w.last_cc == CC_HierarchyChangeAuth || w.last_cc == CC_DictionaryAttackParameters || w.last_cc == CC_NV_UndefineSpace);
             if (chance(admin ? 70 : cut_pct)) c03_cut(&w, &b, i, admin && chance(70) ? 0 : rnd(3));
         }
         c03_cut(&w, &b, n, 0);
